@@ -16,7 +16,8 @@ THEOREMS = ['TexSoup.C18.' + n for n in (
     'Legacy.insert_breaks_list_semantics', 'Legacy.pop_returns_textual_twin',
     'Legacy.pop_differs_only_in_returned_object', 'Legacy.pop_agrees_on_plain_pool',
     'Legacy.insert_repaired_on_witness', 'all_holds_every_list_object', 'inv_survives_content_edit',
-    'Legacy2.insert_misplaced_twin', 'Legacy2.remove_mutated_all_before_raising')]
+    'Legacy2.insert_misplaced_twin', 'Legacy2.remove_mutated_all_before_raising',
+    'extend_by_args_refines', 'stepPair_refines', 'runPair_refines')]
 PARTIAL = []
 TRUSTED = ['hand-written model of TexSoup.data.TexArgs (lean/TexSoupModel/Args.lean), tied to the code by the '
            'correspondence run only',
@@ -35,21 +36,31 @@ ASSUMPTIONS = ['CPython list semantics (insert clamps, pop/index raise IndexErro
 # ------------------------------------------------------------------------------------ history families
 
 def _plans(ctx):
-    """[(label, pool, depth, prefix depth)]"""
-    plans = [('bfs3', A.POOL_TWINS, 3, 1)]
+    """[(label, pool, depth, prefix depth)]; the `pair` plans run over two argument lists from every
+    prefix of lib_args.PAIR_PREFIXES (their `depth` counts the operations after the prefix)"""
+    plans = [('bfs3', A.POOL_TWINS, 3, 1), ('pair2', A.POOL_PAIR, 2, 1)]
     if ctx.thorough:
         plans.append(('bfs4-small', A.POOL_SMALL, 4, 2))
+        plans.append(('pair3', A.POOL_PAIR, 3, 1))
     return plans
 
 
 def _units(plan):
     label, pool, depth, pre = plan
+    if label.startswith('pair'):
+        return [(label, pool, p, depth - pre) for start in A.PAIR_PREFIXES
+                for p in A.bfs_pair(start, pre, pool)]
     return [(label, pool, p, depth - pre) for p in A.bfs_extend([], pre, pool)]
 
 
+def _unit_histories(u):
+    label, pool, prefix, rest = u
+    return (A.bfs_pair if label.startswith('pair') else A.bfs_extend)(prefix, rest, pool)
+
+
 def _nontrivial(ops):
-    """at least two operations, one of which puts something into the list"""
-    return len(ops) >= 2 and any(o[0] in 'aie' for o in ops)
+    """at least two operations, one of which puts something into a list"""
+    return len(ops) >= 2 and any((o[2:] if o.startswith('o:') else o)[0] in 'aiexy' for o in ops)
 
 
 def _line(ops):
@@ -77,8 +88,7 @@ def _corr_histories(hs):
 
 
 def _corr_unit(u):
-    label, pool, prefix, rest = u
-    return _corr_histories(A.bfs_extend(prefix, rest, pool))
+    return _corr_histories(_unit_histories(u))
 
 
 def _collect(r, results, label):
@@ -104,6 +114,8 @@ def correspondence(ctx):
     probe = A.twin_probe()
     if not probe['impl_equals_model']:
         r.fail('model-mismatch-twin-probe', 'pop on positioned twins', input=probe['ops'])
+    r.sample({'request': _line(['o:a:' + A.S_A, 'o:i:0:' + A.S_B, 'y', 'x:-1:_']),
+              'impl': A.impl_run(['o:a:' + A.S_A, 'o:i:0:' + A.S_B, 'y', 'x:-1:_'])})
     r.sample({'request': _line(['a:' + A.S_A, 'i:-1:g@3:' + A.S_A, 'a:' + A.S_BAD, 'p:0', 't']),
               'impl': A.impl_run(['a:' + A.S_A, 'i:-1:g@3:' + A.S_A, 'a:' + A.S_BAD, 'p:0', 't'])})
     r.rule = ('model (args request) vs TexSoup.data.TexArgs (the .args of a command), answer after every step = '
@@ -111,9 +123,14 @@ def correspondence(ctx):
               + '; '.join('ALL sequences of %d ops over a pool of %d items with indices -(n+2)..n+2 (%s)' % (
                   p[2], len(p[1]), p[0]) for p in plans)
               + "; bfs3 pool = unparsed '{a}', two positioned twin objects {a}@3 {a}@7, '[b]', whitespace, "
-                "mismatched '{x]'; random histories up to 40 ops over %d items (twins at different positions, TexCmd, "
-                'TexNamedEnv, TexText, malformed strings); non-trivial = at least 2 ops including an insertion'
-              % len(A.RANDOM_ITEMS))
+                "mismatched '{x]'; pair plans = two argument lists (of two commands): from each of %d start "
+                'states (front insertion into a non-empty list, the same object twice, whitespace - on either '
+                'list) ALL sequences over the single-list operations on either list plus extend by a TexArgs '
+                "OBJECT (own slice `x:lo:hi`, the other list `y`/`o:y`), pool = unparsed '{a}', a shared object, "
+                'whitespace, indices -(n+1)..n+1; random histories up to 40 ops over both lists and %d items '
+                '(twins at different positions, shared objects, TexCmd, TexNamedEnv, TexText, malformed strings) '
+                'including x/y; non-trivial = at least 2 ops including an insertion'
+              % (len(A.PAIR_PREFIXES), len(A.RANDOM_ITEMS)))
     r.exhaustive = True
     return r
 
@@ -136,21 +153,27 @@ class _Fail(Exception):
         self.key, self.what = key, what
 
 
+class _Side(object):
+    """One of the two argument lists of a history: the .args of a command and the plain list."""
+
+    def __init__(self, name):
+        from TexSoup import data as D
+        self.name = name
+        self.owner = D.TexCmd(name)
+        self.args = self.owner.args
+        self.lst = []
+
+
 def _oracle_history(ops):
-    """C18 as stated, on the implementation alone: the .args of a command against a plain Python
-    list holding the same group OBJECTS.  Returns None or (key, what, step)."""
+    """C18 as stated, on the implementation alone: the .args of a command (and, for `o:`/`y`
+    operations, of a second command) against plain Python lists holding the same group OBJECTS.
+    Returns None or (key, what, step)."""
     from TexSoup import data as D
-    owner = D.TexCmd('o')
-    args = owner.args
-    lst = []
+    sides = (_Side('o'), _Side('q'))
     shared = {}
 
     def item(word):
-        if word[:1] == 'h':                       # the same object every time (oracle only)
-            if word not in shared:
-                shared[word] = D.BracketGroup('b') if word == 'h2' else D.BraceGroup('a')
-            return shared[word]
-        return A._mk_item(word)
+        return A._mk_item(word, shared)           # h<k>: the same object every time
 
     def plan(x):
         """what putting `x` into a list of groups means: ('obj', x) | ('new', cls, text) | ('ws',) | ('bad',)"""
@@ -163,20 +186,6 @@ def _oracle_history(ops):
             return ('new', D.BracketGroup if x[0] == '[' else D.BraceGroup, str(x))
         return ('obj', x)
 
-    def put(i, x):
-        """list side of insert/append; returns the expected exception class or None"""
-        p = plan(x)
-        if p[0] == 'bad':
-            return TypeError
-        if p[0] == 'ws':
-            return None
-        e = p[1] if p[0] == 'obj' else _Coerced(p[1], p[2])
-        if i is None:
-            lst.append(e)
-        else:
-            lst.insert(i, e)
-        return None
-
     def run(f):
         try:
             return None, f()
@@ -184,11 +193,30 @@ def _oracle_history(ops):
             return type(e), None
 
     for step, op in enumerate(ops):
-        k, _, rest = op.partition(':')
+        swapped = op.startswith('o:')
+        me, you = (sides[1], sides[0]) if swapped else sides
+        op1 = op[2:] if swapped else op
+        args, lst = me.args, me.lst
+        k, _, rest = op1.partition(':')
         before = list(lst)
         bad_string = False
         want_exc = want_val = None
         got_exc = got_val = None
+
+        def put(i, x):
+            """list side of insert/append; returns the expected exception class or None"""
+            p = plan(x)
+            if p[0] == 'bad':
+                return TypeError
+            if p[0] == 'ws':
+                return None
+            e = p[1] if p[0] == 'obj' else _Coerced(p[1], p[2])
+            if i is None:
+                lst.append(e)
+            else:
+                lst.insert(i, e)
+            return None
+
         if k == 'a':
             x = item(rest)
             bad_string = plan(x)[0] == 'bad'
@@ -207,6 +235,14 @@ def _oracle_history(ops):
                 if want_exc:
                     break
             got_exc, _ = run(lambda: args.extend(xs))
+        elif k == 'x':                              # extend by a TexArgs object: the list's own slice
+            lo, _, hi = rest.partition(':')
+            sl = slice(A._bound(lo), A._bound(hi))
+            lst.extend(lst[sl])
+            got_exc, _ = run(lambda: args.extend(args[sl]))
+        elif k == 'y':                              # extend by the other command's argument list
+            lst.extend(you.lst)
+            got_exc, _ = run(lambda: args.extend(you.args))
         elif k == 'r':
             x = item(rest)
             p = plan(x)
@@ -249,22 +285,27 @@ def _oracle_history(ops):
                 return fail('bad-string-not-rejected', 'expected TypeError, got %s' % (got_exc and got_exc.__name__))
             return fail('exception-' + k, 'list: %s, TexArgs: %s' % (
                 want_exc and want_exc.__name__, got_exc and got_exc.__name__))
-        # contents, by identity; freshly coerced groups are adopted once their class and text are right
-        now = list(args)
-        if len(now) != len(lst):
-            if bad_string:
-                return fail('bad-string-changed-list', 'list had %d items, now %d' % (len(before), len(now)))
-            return fail('contents-' + k, 'list has %d items, TexArgs %d' % (len(lst), len(now)))
-        for j, e in enumerate(lst):
-            if isinstance(e, _Coerced):
-                if type(now[j]) is not e.cls or str(now[j]) != e.text:
-                    return fail('coercion', 'item %d is %r, expected %s %r' % (j, now[j], e.cls.__name__, e.text))
-                lst[j] = now[j]
-            elif now[j] is not e:
+        # contents of BOTH lists, by identity; freshly coerced groups are adopted once class and text are right
+        for sd in (me, you):
+            now = list(sd.args)
+            ref = sd.lst
+            tag = k if sd is me else k + '-other'
+            if len(now) != len(ref):
                 if bad_string:
-                    return fail('bad-string-changed-list', 'item %d changed' % j)
-                return fail('contents-' + k, 'item %d is %r (position %r), list has %r (position %r)' % (
-                    j, now[j], getattr(now[j], 'position', None), e, getattr(e, 'position', None)))
+                    return fail('bad-string-changed-list', 'list had %d items, now %d' % (len(before), len(now)))
+                return fail('contents-' + tag, 'list has %d items, TexArgs %d: %r vs %r' % (
+                    len(ref), len(now), [str(g) for g in ref if not isinstance(g, _Coerced)],
+                    [str(g) for g in now]))
+            for j, e in enumerate(ref):
+                if isinstance(e, _Coerced):
+                    if type(now[j]) is not e.cls or str(now[j]) != e.text:
+                        return fail('coercion', 'item %d is %r, expected %s %r' % (j, now[j], e.cls.__name__, e.text))
+                    ref[j] = now[j]
+                elif now[j] is not e:
+                    if bad_string:
+                        return fail('bad-string-changed-list', 'item %d changed' % j)
+                    return fail('contents-' + tag, 'item %d is %r (position %r), list has %r (position %r)' % (
+                        j, now[j], getattr(now[j], 'position', None), e, getattr(e, 'position', None)))
         if bad_string and (len(before) != len(lst) or any(a is not b for a, b in zip(before, lst))):
             return fail('bad-string-changed-list', 'the reference itself changed')      # cannot happen
         # returned values
@@ -277,14 +318,13 @@ def _oracle_history(ops):
                 return fail('returned-s', 'slice %r, list gives %r' % (got_val, want_val))
         if k == 't' and got_val != want_val:
             return fail('str-args', '%r != %r' % (got_val, want_val))
-        # serialisation, always
-        cat = ''.join(str(g) for g in lst)
-        if str(args) != cat:
-            return fail('str-args', 'str(args) %r, concatenation %r' % (str(args), cat))
-        if str(owner) != '\\o' + cat:
-            return fail('str-owner', 'str(owner) %r, expected %r' % (str(owner), '\\o' + cat))
-        if len(args) != len(lst):
-            return fail('contents-' + k, 'len')
+        # serialisation, always, of both commands
+        for sd in (me, you):
+            cat = ''.join(str(g) for g in sd.lst)
+            if str(sd.args) != cat:
+                return fail('str-args', 'str(args) %r, concatenation %r' % (str(sd.args), cat))
+            if str(sd.owner) != '\\' + sd.name + cat:
+                return fail('str-owner', 'str(owner) %r, expected %r' % (str(sd.owner), '\\' + sd.name + cat))
     return None
 
 
@@ -297,45 +337,16 @@ _ORACLE_ITEMS = [w for w in A.RANDOM_ITEMS if _is_group_item(w)] + ['h0', 'h0', 
 
 
 def _oracle_random(rng, maxlen):
-    """like lib_args.random_history, over strings, group objects and three SHARED group objects
-    (h0, h1: two distinct BraceGroup('a'); h2: BracketGroup('b')) that may enter the list twice"""
-    ops, n = [], 0
-    for _ in range(rng.randint(1, maxlen)):
-        it = rng.choice(_ORACLE_ITEMS)
-        i = rng.randint(-(n + 3), n + 3)
-        k = rng.choice('aaaiiiirrppvcgstee')
-        if k == 'a':
-            op = 'a:' + it
-            n += 1
-        elif k == 'i':
-            op = 'i:%d:%s' % (i, it)
-            n += 1
-        elif k == 'r':
-            op = 'r:' + it
-            n = max(0, n - 1)
-        elif k == 'p':
-            op = 'p' if rng.random() < 0.3 else 'p:%d' % i
-            n = max(0, n - 1)
-        elif k == 'g':
-            op = 'g:%d' % i
-        elif k == 's':
-            def b():
-                return '_' if rng.random() < 0.3 else str(rng.randint(-(n + 3), n + 3))
-            op = 's:%s:%s' % (b(), b())
-        elif k == 'e':
-            m = rng.randint(0, 4)
-            op = 'e:' + ','.join(rng.choice(_ORACLE_ITEMS) for _ in range(m))
-            n += m
-        else:
-            op = k
-            if k == 'c':
-                n = 0
-        ops.append(op)
-    return ops
+    """lib_args.random_history (both lists, extend by own slice / by the other list) over strings,
+    group objects and three SHARED group objects (h0, h1: two distinct BraceGroup('a'); h2:
+    BracketGroup('b')) that may enter a list twice"""
+    return A.random_history(rng, maxlen, _ORACLE_ITEMS)
 
 
 def _in_domain(ops):
     for op in ops:
+        if op.startswith('o:'):
+            op = op[2:]
         k, _, rest = op.partition(':')
         if k in 'ar':
             ws = [rest]
@@ -364,8 +375,7 @@ def _oracle_histories(hs):
 
 
 def _oracle_unit(u):
-    label, pool, prefix, rest = u
-    return _oracle_histories(A.bfs_extend(prefix, rest, pool))
+    return _oracle_histories(_unit_histories(u))
 
 
 def oracle(ctx, seeds, scale):
@@ -382,15 +392,22 @@ def oracle(ctx, seeds, scale):
     hs = [_oracle_random(rng, 40) for _ in range(ctx.pick(30000, 150000) * scale)]
     _collect(r, _util.pmap(_oracle_histories, _util.chunks(hs, 500)), 'random_histories')
     r.sample({'history': 'a:%s;a:g@3:%s;a:g@7:%s;p:1;a:%s;t' % (A.S_A, A.S_A, A.S_A, A.S_BAD), 'verdict': 'holds'})
+    r.sample({'history': 'o:a:%s;o:i:0:%s;a:%s;y;x:-1:_;t' % (A.S_A, A.S_B, A.S_A), 'verdict': 'holds'})
     r.rule = ('the .args (TexArgs) of a command vs a plain Python list that is handed the SAME group objects, after '
               'every step: same exception class (IndexError/ValueError/TypeError or none); list(args) equals the list '
               'element by element BY IDENTITY (a group coerced from an unparsed string must have the right class and '
               'text and is then tracked by identity); pop/indexing return the very object the list returns, slices '
               'the same objects; str(args) == concatenation of the groups in list order; str(owner) == \\o + that; '
               'a string with mismatched delimiters raises TypeError and leaves the list unchanged (extend keeps the '
-              'items before it, like list.extend).  Families: the exhaustive ones of the correspondence, random '
-              'histories up to 40 ops over unparsed strings (good, malformed, whitespace), positioned twins and three '
-              'shared objects that can be in the list twice.  Whitespace strings are not arguments (list unchanged)')
+              'items before it, like list.extend); extending by a TexArgs OBJECT (a slice of the list itself, or the '
+              '.args of a second command kept in the same history) is list.extend by its elements in list order, and '
+              'leaves the source as it is - both commands are checked after every step.  Families: the exhaustive '
+              'ones of the correspondence (one list; two lists from start states with front insertions / the same '
+              'object twice), random histories up to 40 ops over both lists and unparsed strings (good, malformed, '
+              'whitespace), positioned twins and three shared objects that can be in a list twice.  Whitespace '
+              'strings are not arguments (list unchanged).  `args.extend(args)` itself is not exercised: on a '
+              'non-empty TexArgs it does not terminate (it iterates over the list it is growing; a Python list '
+              'doubles)')
     r.exhaustive = True
     return r
 
